@@ -16,6 +16,9 @@ func strConcat(a, b *StrV) *StrV {
 	if a.Opaque || b.Opaque {
 		return &StrV{Opaque: true, Tag: "concat"}
 	}
+	if a.Cases != nil || b.Cases != nil {
+		return &StrV{Opaque: true, Tag: "concat-cases"}
+	}
 	if a.Fmt == nil && b.Fmt == nil {
 		if len(a.Alts)*len(b.Alts) > altCap {
 			return &StrV{Opaque: true, Tag: "concat-cap"}
@@ -564,7 +567,18 @@ func (x *Exec) sprintf(call *ast.CallExpr, st *State) Value {
 	ai := 1
 	flush := func() {
 		if len(parts) > 0 {
-			res = strConcat(res, &StrV{Fmt: joinParts(parts)})
+			lit, allLit := "", true
+			for _, p := range parts {
+				if p.Num != nil {
+					allLit = false
+				}
+				lit += p.Lit
+			}
+			if allLit {
+				res = strConcat(res, litStr(lit))
+			} else {
+				res = strConcat(res, &StrV{Fmt: joinParts(parts)})
+			}
 			parts = nil
 		}
 	}
